@@ -290,7 +290,9 @@ def make_replay(prop, ob, newfail, work, src):
                entry=ob["entry"], repo=str(REPO), mode=ob["mode"],
                failed_obligations=[dict(name=f["property"], description=f["description"], file=f["file"], line=f["line"],
                                         function=f["function"], status=f["status"]) for f in newfail][:30],
-               ob=dict((k, v) for k, v in ob.items() if k in ("id", "unit", "entry", "enforce", "defines", "overflow")))
+               ob=dict((k, v) for k, v in ob.items() if k in ("id", "unit", "entry", "enforce", "defines", "overflow")),
+               verifier_output=[f"[{f['property']}] {f['file']} line {f['line']} function {f['function']}: {f['description']}: {f['status']}"
+                                for f in newfail][:60])
     found = None
     try:
         r, tr = cex_run(ob, work, src)
